@@ -1094,3 +1094,7 @@ mod tests {
         Ok(())
     }
 }
+
+#[cfg(kani)]
+#[path = "/verif/kani/encrypted_key_storage_proofs.rs"]
+mod verif_proofs;
